@@ -9,7 +9,9 @@ connections may arrive at any time, also while a change is in progress, where th
 moment it is resolved, and is not forwarded when the hostname is not (any more) configured.
 
 `sequential_forwarding`, `removed_not_forwarded`, `proxy_matches_router`, `diff_sound` are the
-invariant-level statements it rests on.
+invariant-level statements it rests on. Reloads include REJECTED ones (the file fails
+`Config.validate`, or cannot be read): `rejected_reload_noop` (nothing changes) and
+`corrected_reload_forwarding` (rejected file, then corrected file: traffic follows the corrected file).
 
 `window_stale` / `c44_witness` are theorems about the PRE-FIX interleaving (resolution without the
 lock, between `closeOutdatedProxies` and `buildRouter`): one such connection re-caches a proxy for the
@@ -150,22 +152,35 @@ theorem unpublish_quiescent (s : St) (h : String) (q : Quiescent s) : Quiescent 
         | some t => simp [hl] at hc; simp [hc]
   · exact q
 
-theorem reload_eq (s : St) (next : List Tunnel) (hw : s.window = none) :
+theorem reload_eq (s : St) (next : List Tunnel) (hw : s.window = none) (ha : accepts next = true) :
     reload s next = rebuild (rebuild s next) next := by
   cases s with
   | mk tunnels router proxies window =>
     simp only at hw; subst hw
+    simp only [reload, ha, if_true]
     rfl
+
+/-- **rejected_reload_noop.** A reload whose file fails validation (any tunnel with an unparsable /
+unsupported target, an unknown header mode, or custom mode without a header host) leaves the
+configuration, the router and the proxy cache exactly as they were. -/
+theorem rejected_reload_noop (s : St) (next : List Tunnel) (hr : accepts next = false) :
+    reload s next = s := by
+  simp [reload, hr]
 
 theorem step_quiescent (s : St) (op : Op) (q : Quiescent s) : Quiescent (step s op) := by
   cases op with
   | rebuild n => exact rebuild_quiescent s n q.router.sub q.proxy
   | reload n =>
-    simp only [step]; rw [reload_eq s n q.closed]
-    have q1 := rebuild_quiescent s n q.router.sub q.proxy
-    exact rebuild_quiescent _ n q1.router.sub q1.proxy
+    simp only [step]
+    cases ha : accepts n with
+    | true =>
+      rw [reload_eq s n q.closed ha]
+      have q1 := rebuild_quiescent s n q.router.sub q.proxy
+      exact rebuild_quiescent _ n q1.router.sub q1.proxy
+    | false => rw [rejected_reload_noop s n ha]; exact q
   | unpublish h => exact unpublish_quiescent s h q
   | incoming h => exact incoming_quiescent s h q
+  | reloadUnreadable => exact q
 
 theorem run_quiescent (ops : List Op) : ∀ s, Quiescent s → Quiescent (run s ops) := by
   induction ops with
@@ -213,6 +228,26 @@ theorem proxy_matches_router (ts first : List Tunnel) (ops : List Op) (h : Strin
   have := q.proxy h r hne hp
   exact ⟨this, by rw [← q.router h hne]; exact this⟩
 
+theorem run_append (s : St) (a b : List Op) : run s (a ++ b) = run (run s a) b := by
+  simp [run, List.foldl_append]
+
+theorem reload_tunnels (s : St) (next : List Tunnel) (ha : accepts next = true) :
+    (reload s next).tunnels = next := by
+  simp only [reload, ha, if_true]; rfl
+
+/-- **corrected_reload_forwarding.** After ANY history, a reload that is rejected by validation
+(`bad`, which may at the same time retarget or drop hostnames) followed by a reload of an accepted
+file `good`: the next connection for any non-empty hostname is served exactly as `good` says — with
+`good`'s route for that hostname, and not forwarded when `good` does not list it. The rejected file
+leaves no trace (in particular it does not become the "previous" list the next diff is taken against). -/
+theorem corrected_reload_forwarding (ts first : List Tunnel) (ops : List Op) (bad good : List Tunnel)
+    (h : String) (hne : h ≠ "") (hb : accepts bad = false) (hg : accepts good = true) :
+    (incoming (run (rebuild (init ts) first) (ops ++ [.reload bad, .reload good])) h).2
+      = (last good h).map (·.route) := by
+  rw [sequential_forwarding ts first _ h hne, run_append]
+  simp only [run, List.foldl, step, current]
+  rw [rejected_reload_noop _ bad hb, reload_tunnels _ good hg]
+
 theorem serveAll_spec (hs : List String) : ∀ s, Quiescent s →
     Quiescent (serveAll s hs).1 ∧ ∀ x ∈ (serveAll s hs).2, x.h ≠ "" → x.route = x.want := by
   induction hs with
@@ -232,14 +267,17 @@ theorem stepLocked_spec (s : St) (e : Ev) (q : Quiescent s) :
   cases e with
   | rebuild new d => exact serveAll_spec d _ (rebuild_quiescent s new q.router.sub q.proxy)
   | reload next d1 d2 =>
-    have a := serveAll_spec d1 _ (rebuild_quiescent s next q.router.sub q.proxy)
-    have b := serveAll_spec d2 _ (rebuild_quiescent _ next a.1.router.sub a.1.proxy)
-    refine ⟨b.1, ?_⟩
-    intro x hx
-    simp only [stepLocked, List.mem_append] at hx
-    rcases hx with hx | hx
-    · exact a.2 x hx
-    · exact b.2 x hx
+    cases ha : accepts next with
+    | false => simp only [stepLocked, ha]; exact serveAll_spec (d1 ++ d2) s q
+    | true =>
+      have a := serveAll_spec d1 _ (rebuild_quiescent s next q.router.sub q.proxy)
+      have b := serveAll_spec d2 _ (rebuild_quiescent _ next a.1.router.sub a.1.proxy)
+      refine ⟨by simp only [stepLocked, ha]; exact b.1, ?_⟩
+      intro x hx
+      simp only [stepLocked, ha, if_true, List.mem_append] at hx
+      rcases hx with hx | hx
+      · exact a.2 x hx
+      · exact b.2 x hx
   | unpublish h d => exact serveAll_spec d _ (unpublish_quiescent s h q)
   | arrive h => exact serveAll_spec [h] s q
 
@@ -314,6 +352,22 @@ example :
     let s := run (rebuild (init []) [⟨"h", rA⟩, ⟨"g", rA⟩])
       [.incoming "h", .incoming "g", .rebuild [⟨"h", rB⟩], .incoming "h", .reload [⟨"h", rB⟩, ⟨"g", rB⟩]]
     (incoming s "h").2 = some rB ∧ (incoming s "g").2 = some rB ∧ (incoming s "zz").2 = none := by
+  decide
+
+def rBad : Route := ⟨"!scheme", false, 0, "", ""⟩
+
+example : accepts [⟨"h", rB⟩, ⟨"c", rBad⟩] = false ∧ accepts [⟨"h", rB⟩] = true ∧
+    accepts [⟨"h", ⟨"b0", false, 0, "", "custom"⟩⟩] = false ∧ accepts [⟨"h", ⟨"b0", false, 0, "", "bogus"⟩⟩] = false ∧
+    accepts [⟨"h", ⟨"b0", false, 0, "x", "custom"⟩⟩] = true := by decide
+
+/-- rejected_reload_noop / corrected_reload_forwarding on the operator's story: h→b0 and g→b0 served;
+the edited file retargets h, drops g and has a typo in a third tunnel (rejected: h and g still served
+as before); the typo is fixed: h goes to b1, g is no longer forwarded. -/
+example :
+    let s1 := run (rebuild (init []) [⟨"h", rA⟩, ⟨"g", rA⟩]) [.incoming "h", .incoming "g", .reload [⟨"h", rB⟩, ⟨"c", rBad⟩]]
+    let s2 := run s1 [.incoming "h", .reload [⟨"h", rB⟩]]
+    (incoming s1 "h").2 = some rA ∧ (incoming s1 "g").2 = some rA ∧ current s1 "h" = some rA ∧
+    (incoming s2 "h").2 = some rB ∧ (incoming s2 "g").2 = none := by
   decide
 
 example : inDiff [⟨"h", rA⟩, ⟨"g", rA⟩] [⟨"h", rB⟩] "h" = true ∧ inDiff [⟨"h", rA⟩, ⟨"g", rA⟩] [⟨"h", rB⟩] "g" = true ∧
